@@ -883,7 +883,7 @@ fn win_pairs(ctx: &mut Ctx) {
         // all 65 536 raw windows against mss*n for n = floor, floor±1 and a boundary set of MSS values
         for w in 0..=65535u16 {
             for &m in &[0u16, 1, 536, 1460] {
-                let f = if m == 0 { 0 } else { w / m };
+                let f: u32 = if m == 0 { 0 } else { (w / m) as u32 };
                 for n in [f, f + 1, f.wrapping_sub(1)] {
                     if n <= 255 {
                         emit_win(ctx, &WindowSize::Value(w), &WindowSize::Mss(n as u8), Some(m));
